@@ -366,6 +366,8 @@ func genCase(seed int64, idx int) *Case {
 	last := &c.Handshakes[len(c.Handshakes)-1]
 	if r.Chance(1, 30) && !last.Blocked {
 		last.RemoveRealm = true
+	} else if r.Chance(1, 40) {
+		last.AfterClose = true
 	}
 	return c
 }
@@ -433,6 +435,9 @@ func directedCases() []*Case {
 		HS{Rep: 12, Arrivals: []Arrival{{M: []any{"hello", "t.new", map[string]any{"roles": roles}}}}})
 	tc.Router.Template = &RealmCfg{Auths: []AuthCfg{observerAuth()}, AnonymousAuth: true}
 	cs = append(cs, tc)
+	cs = append(cs, mk("after-close", []AuthCfg{{Kind: "anonymous", Role: "guest"}}, false,
+		HS{Rep: 13, Arrivals: []Arrival{hello(nil, "a", nil)}},
+		HS{Rep: 13, AfterClose: true, Arrivals: []Arrival{hello(nil, "a", nil)}}))
 	for i, c := range cs {
 		c.ID = -1 - i
 	}
